@@ -23,14 +23,13 @@ try:
     subprocess.check_call(['git', '-C', '/repo', 'worktree', 'add', '--detach', '-f', d + '/r', 'HEAD'], stdout=subprocess.DEVNULL, stderr=subprocess.DEVNULL)
     r = d + '/r'
     # carry over uncommitted working-tree state of /repo? no: mutants are relative to HEAD
-    if demo:
+    def run_demo(tag):
         c = subprocess.run(['/venv/bin/python', os.path.abspath(demo)], env=dict(os.environ, PPGM_REPO=r, PYTHONPATH=r + '/src'), capture_output=True, text=True, cwd=r)
-        print('MUT: demo on clean tree rc=%d' % c.returncode)
+        print('MUT: demo on %s tree rc=%d: %s' % (tag, c.returncode, (c.stdout.strip().splitlines() or [''])[-1][:200]))
+    if demo:
+        run_demo('clean')
     if patch:
         subprocess.check_call(['git', '-C', r, 'apply', '--3way', os.path.abspath(patch)])
-    if demo:
-        c = subprocess.run(['/venv/bin/python', os.path.abspath(demo)], env=dict(os.environ, PPGM_REPO=r, PYTHONPATH=r + '/src'), capture_output=True, text=True, cwd=r)
-        print('MUT: demo on patched tree rc=%d: %s' % (c.returncode, (c.stdout.strip().splitlines() or [''])[-1][:200]))
     else:
         p = os.path.join(r, rel)
         s = open(p).read()
@@ -38,6 +37,8 @@ try:
         if s.count(old) != 1:
             print('MUT: pattern occurs %d times' % s.count(old)); sys.exit(3)
         open(p, 'w').write(s.replace(old, new))
+    if demo:
+        run_demo('patched')
     if '--no-tests' not in flags:
         env = dict(os.environ, PYTHONPATH=r + '/src', PYTHONHASHSEED='0')
         t = subprocess.run(['/venv/bin/python', '-m', 'pytest', '-q', '-p', 'no:cacheprovider', '--timeout=900', 'test'], cwd=r, env=env, capture_output=True, text=True)
